@@ -813,6 +813,16 @@ func (w *walker) lockCall(c *ast.CallExpr) (lockT, string, bool) {
 	default:
 		return lockT{}, "", false
 	}
+	if id, ok := s.X.(*ast.Ident); ok {
+		// a mutex held in a local variable guards the captured locals of the same function
+		if v := localVar(w.pi, id); v != nil {
+			if m, _ := isMutex(v.Type()); m {
+				return lockT{base: "<local>", key: fmt.Sprintf("local.%s@%d", id.Name, fset.Position(v.Pos()).Line),
+					excl: s.Sel.Name == "Lock" || s.Sel.Name == "Unlock"}, s.Sel.Name, true
+			}
+		}
+		return lockT{}, "", false
+	}
 	ms, ok := s.X.(*ast.SelectorExpr)
 	if !ok {
 		return lockT{}, "", false
@@ -1082,7 +1092,9 @@ func (w *walker) inlineLit(lit *ast.FuncLit) {
 func (w *walker) expr(e ast.Expr, write bool) {
 	switch v := e.(type) {
 	case nil:
-	case *ast.Ident, *ast.BasicLit:
+	case *ast.BasicLit:
+	case *ast.Ident:
+		w.localAccess(v, write)
 	case *ast.ParenExpr:
 		w.expr(v.X, write)
 	case *ast.SelectorExpr:
@@ -1182,6 +1194,11 @@ func (w *walker) call(c *ast.CallExpr) {
 			}
 			if m, _ := isMutex(w.pi.info.TypeOf(s.X)); m {
 				recvWrite = false
+			}
+			// every pointer-receiver method of LongBitmask changes the words, also when it is
+			// reached through a pointer (x[i].Unset(...) on a []*LongBitmask)
+			if _, isPtr := sig.Recv().Type().(*types.Pointer); isPtr && isLongBitmask(sig.Recv().Type()) {
+				recvWrite = true
 			}
 		}
 		w.expr(s.X, recvWrite)
@@ -1475,6 +1492,133 @@ func findFresh(fn *fnode) {
 	})
 }
 
+// ---------------------------------------------------------------- captured local variables
+// A local variable (or parameter) that a `go` closure refers to is shared between the goroutine
+// that declared it and the started one(s).  Its accesses become rows of location "local:<func>.<name>":
+// inside closures that are functions of their own (go / loop / deferred / returned) with the
+// context of that closure; in the declaring function only where they can overlap with a started
+// goroutine: after the go statement, or anywhere inside a loop that contains it.  A write is an
+// assignment, ++/--, an element assignment, or a mutating bitmask method reached through the
+// variable (x[i].Unset(...)).
+type capture struct {
+	goPos, loopStart, loopEnd token.Pos
+}
+
+var sharedLocals = map[types.Object][]capture{}
+
+func unit(fn *fnode) *fnode {
+	for fn.lit != nil && (fn.role == "inline" || fn.role == "sync-arg") && fn.parent != nil {
+		fn = fn.parent
+	}
+	return fn
+}
+
+func unitNode(fn *fnode) ast.Node {
+	if fn.decl != nil {
+		return fn.decl
+	}
+	return fn.lit
+}
+
+func localVar(pi *pkgInfo, id *ast.Ident) *types.Var {
+	v, ok := pi.info.Uses[id].(*types.Var)
+	if !ok || v.IsField() || v.Parent() == nil || v.Parent() == pi.pkg.Scope() || v.Parent() == types.Universe {
+		return nil
+	}
+	return v
+}
+
+func findCaptures() {
+	for _, g := range fnodes {
+		if g.lit == nil || g.role != "go" {
+			continue
+		}
+		pi := g.pkg
+		owner := unitNode(unit(g.parent))
+		c := capture{goPos: g.lit.Pos()}
+		for n := parents[g.lit]; n != nil && n != owner; n = parents[n] {
+			switch n.(type) {
+			case *ast.GoStmt:
+				c.goPos = n.Pos()
+			case *ast.ForStmt, *ast.RangeStmt:
+				c.loopStart, c.loopEnd = n.Pos(), n.End() // outermost wins (assigned last)
+			}
+		}
+		ast.Inspect(g.lit.Body, func(n ast.Node) bool {
+			id, ok := n.(*ast.Ident)
+			if !ok {
+				return true
+			}
+			v := localVar(pi, id)
+			if v == nil || (g.lit.Pos() <= v.Pos() && v.Pos() < g.lit.End()) {
+				return true
+			}
+			sharedLocals[v] = append(sharedLocals[v], c)
+			return true
+		})
+	}
+}
+
+func (w *walker) localAccess(id *ast.Ident, write bool) {
+	if !w.emit {
+		return
+	}
+	v := localVar(w.pi, id)
+	if v == nil {
+		return
+	}
+	caps := sharedLocals[v]
+	if caps == nil {
+		return
+	}
+	if m, _ := isMutex(v.Type()); m {
+		return
+	}
+	if _, isChan := v.Type().Underlying().(*types.Chan); isChan && !write {
+		return // channel operations synchronise
+	}
+	root := unit(w.fn)
+	rn := unitNode(root)
+	if rn.Pos() <= v.Pos() && v.Pos() < rn.End() {
+		// the declaring function: only what can overlap with a started goroutine
+		overlap := false
+		for _, c := range caps {
+			if id.Pos() > c.goPos || (c.loopStart <= id.Pos() && id.Pos() < c.loopEnd) {
+				overlap = true
+			}
+		}
+		if !overlap {
+			return
+		}
+	}
+	// owner of the variable, for the name of the location
+	name := "local:" + v.Name()
+	for _, fn := range fnodes {
+		if fn.decl != nil && fn.decl.Pos() <= v.Pos() && v.Pos() < fn.decl.End() {
+			name = "local:" + fn.name + "." + v.Name()
+		}
+	}
+	ids := []int{}
+	for c := range w.fn.ctxs {
+		ids = append(ids, c)
+	}
+	sort.Ints(ids)
+	if len(ids) == 0 {
+		ids = []int{newCtx("dead", "dead", true, false).ID}
+	}
+	pos := fset.Position(id.Pos())
+	locks := []string{}
+	for _, l := range w.held {
+		if l.base == "<local>" {
+			locks = append(locks, lockKeyOf(l))
+		}
+	}
+	sort.Strings(locks)
+	for _, c := range ids {
+		rows = append(rows, access{File: pos.Filename, Line: pos.Line, Loc: name, Write: write, Ctx: c, Locks: locks, Func: w.fn.name})
+	}
+}
+
 func walkAll(emit bool) map[*fnode][][]lockT {
 	calls := map[*fnode][][]lockT{}
 	for _, fn := range fnodes {
@@ -1505,6 +1649,7 @@ func main() {
 		findFresh(fn)
 	}
 	assignContexts()
+	findCaptures()
 	// entry locks: what every caller holds on the receiver (greatest fixpoint, a few rounds)
 	for round := 0; round < 4; round++ {
 		calls := walkAll(false)
